@@ -1,1 +1,244 @@
-(* C13 placeholder *)
+(* C13 — asynchronous FIFOs are safe under every interleaving of their clocks.
+   Only statements here; proofs live in Proofs/AsyncFifoP.v, the model in Model/AsyncFifo.v.
+
+   Reading guide.  [n] is depth_bits (AsyncFIFO depth 2^n, AsyncFIFOBuffered depth 2^n + 1), [tr] an arbitrary list
+   of events (EW / ER / EWR = write-clock edge / read-clock edge / both at once) each with its inputs
+   (w_en, w_data, r_en, rst).  [areach n width tr] = (state, monitor) after running [tr] from power-on; the monitor
+   [mon] logs accepted writes ([wlog]: w_rdy & w_en at a write edge) and accepted reads ([rlog]: r_rdy & r_en at a
+   read edge, logging r_data) and is defined from interface signals only; [held m] = #writes - #reads.
+   All safety theorems are for reset-free runs ([no_rst tr]); the start-up r_rst pulse is part of every run. *)
+From Coq Require Import ZArith List Bool Lia.
+From V.Model Require Import Bits AsyncFifo.
+From V.Proofs Require Import BitsP AsyncFifoP.
+Import ListNotations.
+Open Scope Z_scope.
+
+(* ------------------------------------------------------------------ Gray algebra, all widths *)
+Theorem C13_gray_dec_enc w x : 0 <= w -> 0 <= x < 2 ^ w -> gray_dec w (gray_enc x) = x.
+Proof. exact (gray_dec_enc w x). Qed.
+Print Assumptions C13_gray_dec_enc.
+Example C13_gray_dec_enc_ex : 0 <= 5 /\ 0 <= 22 < 2 ^ 5 /\ gray_enc 22 = 29 /\ gray_dec 5 29 = 22.
+Proof. vm_compute. repeat split; congruence. Qed.
+
+Theorem C13_gray_enc_inj w a b : 0 <= w -> 0 <= a < 2 ^ w -> 0 <= b < 2 ^ w -> gray_enc a = gray_enc b -> a = b.
+Proof. exact (gray_enc_inj w a b). Qed.
+Print Assumptions C13_gray_enc_inj.
+
+Theorem C13_gray_enc_range w x : 0 <= w -> 0 <= x < 2 ^ w -> 0 <= gray_enc x < 2 ^ w.
+Proof. exact (gray_enc_range w x). Qed.
+Print Assumptions C13_gray_enc_range.
+
+Theorem C13_gray_enc_xor a b : gray_enc (Z.lxor a b) = Z.lxor (gray_enc a) (gray_enc b).
+Proof. exact (gray_enc_xor a b). Qed.
+Print Assumptions C13_gray_enc_xor.
+
+(* consecutive pointer values (with wrap-around) have codes that differ in exactly one bit *)
+Theorem C13_gray_succ_one_bit w x : 1 <= w -> 0 <= x < 2 ^ w ->
+  exists k, 0 <= k < w /\ Z.lxor (gray_enc x) (gray_enc ((x + 1) mod 2 ^ w)) = 2 ^ k.
+Proof. exact (gray_succ_one_bit w x). Qed.
+Print Assumptions C13_gray_succ_one_bit.
+Example C13_gray_succ_one_bit_ex : Z.lxor (gray_enc 7) (gray_enc ((7 + 1) mod 2 ^ 3)) = 2 ^ 2
+                                   /\ Z.lxor (gray_enc 3) (gray_enc 4) = 2 ^ 2.
+Proof. vm_compute. split; reflexivity. Qed.
+
+(* the elaborated full test on Gray pointers <=> the binary pointers are exactly 2^n apart *)
+Theorem C13_full_cond_iff n a b : 1 <= n -> 0 <= a < 2 ^ (n + 1) -> 0 <= b < 2 ^ (n + 1) ->
+  gray_full n (gray_enc a) (gray_enc b) = true <-> (a - b) mod 2 ^ (n + 1) = 2 ^ n.
+Proof. exact (full_cond_iff n a b). Qed.
+Print Assumptions C13_full_cond_iff.
+Example C13_full_cond_ex : gray_full 2 (gray_enc 1) (gray_enc 5) = true /\ (1 - 5) mod 2 ^ 3 = 2 ^ 2.
+Proof. vm_compute. split; reflexivity. Qed.
+
+Theorem C13_empty_cond_iff w a b : 0 <= w -> 0 <= a < 2 ^ w -> 0 <= b < 2 ^ w ->
+  (gray_enc a =? gray_enc b) = true <-> a = b.
+Proof. exact (empty_cond_iff w a b). Qed.
+Print Assumptions C13_empty_cond_iff.
+
+(* ------------------------------------------------------------------ AsyncFIFO: safety for every event list *)
+(* a run that fills the depth-2 FIFO, lets the pointers cross, reads, and has a coincident edge *)
+Definition ex_tr : list (ev * ain) :=
+  [(EW, mkIn true 5 false false); (EW, mkIn true 6 false false); (EW, mkIn true 7 true false);
+   (ER, mkIn false 0 true false); (ER, mkIn false 0 true false); (ER, mkIn false 0 true false);
+   (EWR, mkIn true 1 true false); (EW, mkIn true 2 false false); (EWR, mkIn true 3 true false);
+   (EW, mkIn true 4 false false); (ER, mkIn false 0 true false); (ER, mkIn false 0 false false)].
+(* it ends full (2 held, w_rdy = 0) with r_rdy = 1 and r_data = 3 = oldest unread; the writes of 7, 1, 2 were refused *)
+Example C13_ex_run :
+  no_rst ex_tr /\ wlog (snd (areach 1 3 ex_tr)) = [5; 6; 3; 4] /\ rlog (snd (areach 1 3 ex_tr)) = [5; 6]
+  /\ o_wrdy 1 (fst (areach 1 3 ex_tr)) = false /\ o_rrdy (fst (areach 1 3 ex_tr)) = true
+  /\ o_rdata (fst (areach 1 3 ex_tr)) = 3 /\ held (snd (areach 1 3 ex_tr)) = 2 ^ 1
+  /\ wlog (snd (breach 1 3 ex_tr)) = [5; 6; 3; 4] /\ rlog (snd (breach 1 3 ex_tr)) = [5; 6].
+Proof.
+  split; [unfold no_rst, ex_tr; repeat (apply Forall_cons; [reflexivity|]); apply Forall_nil|].
+  vm_compute. repeat split; reflexivity.
+Qed.
+
+(* ghost counters exist such that each side only ever sees an older-or-equal value of the other side's pointer
+   (chain iv_ord of [Inv]), all pointer registers are the Gray/binary images of those counters, and at most 2^n
+   entries are in flight *)
+Theorem C13_async_pointer_invariant n width tr : 1 <= n -> no_rst tr ->
+  exists g, Inv n (fst (areach n width tr)) (snd (areach n width tr)) g.
+Proof. exact (Inv_reach n width tr). Qed.
+Print Assumptions C13_async_pointer_invariant.
+
+(* never more than depth entries held; w_rdy is not asserted while depth entries are held *)
+Theorem C13_async_no_overflow n width tr : 1 <= n -> no_rst tr ->
+  let (st, m) := areach n width tr in
+  0 <= held m <= 2 ^ n /\ (held m = 2 ^ n -> o_wrdy n st = false).
+Proof.
+  intros Hn H. destruct (Inv_reach n width tr Hn H) as [g I]. unfold areach. destruct (arun n width tr (astate0 n, mon0)) as [st m].
+  exact (Inv_no_overflow n st m g Hn I).
+Qed.
+Print Assumptions C13_async_no_overflow.
+
+(* entries are read in the order written, none lost or duplicated: the read log is a prefix of the write log *)
+Theorem C13_async_fifo_order n width tr : 1 <= n -> no_rst tr ->
+  let m := snd (areach n width tr) in rlog m = firstn (length (rlog m)) (wlog m).
+Proof. intros Hn H. destruct (Inv_reach n width tr Hn H) as [g I]. exact (Inv_order n _ _ g I). Qed.
+Print Assumptions C13_async_fifo_order.
+
+(* r_rdy implies r_data is the oldest unread entry *)
+Theorem C13_async_r_rdy_data n width tr : 1 <= n -> no_rst tr ->
+  let (st, m) := areach n width tr in
+  o_rrdy st = true -> 0 < held m /\ o_rdata st = nth (length (rlog m)) (wlog m) 0.
+Proof.
+  intros Hn H. destruct (Inv_reach n width tr Hn H) as [g I]. unfold areach. destruct (arun n width tr (astate0 n, mon0)) as [st m].
+  exact (Inv_rdy_data n st m g Hn I).
+Qed.
+Print Assumptions C13_async_r_rdy_data.
+
+(* levels stay within 0..depth; the read side never sees more than is held *)
+Theorem C13_async_levels_bounded n width tr : 1 <= n -> no_rst tr ->
+  let (st, m) := areach n width tr in
+  0 <= o_wlevel st <= 2 ^ n /\ 0 <= o_rlevel n st <= 2 ^ n /\ o_rlevel n st <= held m.
+Proof.
+  intros Hn H. destruct (Inv_reach n width tr Hn H) as [g I]. unfold areach. destruct (arun n width tr (astate0 n, mon0)) as [st m].
+  exact (Inv_levels n st m g Hn I).
+Qed.
+Print Assumptions C13_async_levels_bounded.
+
+(* once writing stops (tr2 has no w_en): nothing is written any more; after 2 read-clock edges (any number of write
+   edges interleaved) every held entry is visible to the reader (r_level = held, r_rdy <-> held > 0); and if the
+   reader keeps r_en asserted, after held + 2 read edges every written entry has been read *)
+Theorem C13_async_drain_bounded n width tr1 tr2 : 1 <= n -> no_rst tr1 -> no_rst tr2 -> no_write tr2 ->
+  let sm1 := areach n width tr1 in
+  let sm2 := arun n width tr2 sm1 in
+  wlog (snd sm2) = wlog (snd sm1) /\
+  (2 <= r_edges tr2 -> o_rlevel n (fst sm2) = held (snd sm2) /\ o_rrdy (fst sm2) = (0 <? held (snd sm2))) /\
+  (all_ren tr2 -> held (snd sm1) + 2 <= r_edges tr2 -> rlog (snd sm2) = wlog (snd sm1)).
+Proof.
+  intros Hn H1 H2 Hw. cbv zeta.
+  pose proof (InvS_run n width tr1 Hn H1 (astate0 n, mon0, ghost0) (Inv_init n ltac:(lia))) as I.
+  pose proof (drain_final n width tr2 _ Hn H2 Hw I) as D. cbv zeta in D.
+  rewrite !grun_fst in D. exact D.
+Qed.
+Print Assumptions C13_async_drain_bounded.
+Example C13_async_drain_ex :
+  let tr2 := [(ER, mkIn false 0 true false); (EW, mkIn false 9 true false); (EWR, mkIn false 0 true false);
+              (ER, mkIn false 0 true false); (ER, mkIn false 0 true false)] in
+  let tr1 := [(EW, mkIn true 5 false false); (EW, mkIn true 6 false false)] in
+  no_rst tr1 /\ no_rst tr2 /\ no_write tr2 /\ all_ren tr2 /\ held (snd (areach 1 3 tr1)) + 2 <= r_edges tr2
+  /\ rlog (snd (arun 1 3 tr2 (areach 1 3 tr1))) = [5; 6].
+Proof.
+  cbv zeta. unfold no_rst, no_write, all_ren.
+  repeat (split; [repeat (apply Forall_cons; [reflexivity|]); apply Forall_nil|]).
+  split; [vm_compute; congruence|reflexivity].
+Qed.
+
+(* ------------------------------------------------------------------ AsyncFIFOBuffered (depth 2^n + 1) *)
+Theorem C13_buffered_no_overflow n width tr : 1 <= n -> no_rst tr ->
+  let (st, m) := breach n width tr in
+  0 <= held m <= 2 ^ n + 1 /\ (held m = 2 ^ n + 1 -> bo_wrdy n st = false).
+Proof.
+  intros Hn H. pose proof (BInv_reach n width tr Hn H) as I. unfold breach in *. destruct (brun n width tr (bstate0 n, mon0)) as [st m].
+  exact (BInv_no_overflow n st m Hn I).
+Qed.
+Print Assumptions C13_buffered_no_overflow.
+
+Theorem C13_buffered_fifo_order n width tr : 1 <= n -> no_rst tr ->
+  let m := snd (breach n width tr) in rlog m = firstn (length (rlog m)) (wlog m).
+Proof. intros Hn H. exact (BInv_order n _ _ (BInv_reach n width tr Hn H)). Qed.
+Print Assumptions C13_buffered_fifo_order.
+
+Theorem C13_buffered_r_rdy_data n width tr : 1 <= n -> no_rst tr ->
+  let (st, m) := breach n width tr in
+  bo_rrdy st = true -> 0 < held m /\ bo_rdata st = nth (length (rlog m)) (wlog m) 0.
+Proof.
+  intros Hn H. pose proof (BInv_reach n width tr Hn H) as I. unfold breach in *. destruct (brun n width tr (bstate0 n, mon0)) as [st m].
+  exact (BInv_rdy_data n st m Hn I).
+Qed.
+Print Assumptions C13_buffered_r_rdy_data.
+
+Theorem C13_buffered_levels_bounded n width tr : 1 <= n -> no_rst tr ->
+  let st := fst (breach n width tr) in
+  0 <= bo_wlevel n st <= 2 ^ n + 1 /\ 0 <= bo_rlevel st <= 2 ^ n + 1.
+Proof. intros Hn H. exact (BInv_levels n _ _ Hn (BInv_reach n width tr Hn H)). Qed.
+Print Assumptions C13_buffered_levels_bounded.
+
+(* once writing stops, after 3 read-clock edges (any r_en, any number of write edges interleaved) the output register
+   shows an entry whenever one is held: r_rdy <-> held > 0 *)
+Theorem C13_buffered_readable_bounded n width tr1 tr2 : 1 <= n -> no_rst tr1 -> no_rst tr2 -> no_write tr2 ->
+  let sm1 := breach n width tr1 in
+  let sm2 := brun n width tr2 sm1 in
+  3 <= r_edges tr2 ->
+  wlog (snd sm2) = wlog (snd sm1) /\ bo_rrdy (fst sm2) = (0 <? held (snd sm2)).
+Proof. exact (bvis_final n width tr1 tr2). Qed.
+Print Assumptions C13_buffered_readable_bounded.
+
+(* once writing stops and the reader keeps r_en asserted, after held + 3 read-clock edges (any number of write
+   edges interleaved) every written entry has been read (one edge more than AsyncFIFO: the output register) *)
+Theorem C13_buffered_drain_bounded n width tr1 tr2 : 1 <= n -> no_rst tr1 -> no_rst tr2 -> no_write tr2 -> all_ren tr2 ->
+  let sm1 := breach n width tr1 in
+  let sm2 := brun n width tr2 sm1 in
+  held (snd sm1) + 3 <= r_edges tr2 ->
+  wlog (snd sm2) = wlog (snd sm1) /\ rlog (snd sm2) = wlog (snd sm1).
+Proof. exact (bdrain_final n width tr1 tr2). Qed.
+Print Assumptions C13_buffered_drain_bounded.
+Example C13_buffered_drain_ex :
+  let tr2 := [(ER, mkIn false 0 true false); (EW, mkIn false 9 true false); (EWR, mkIn false 0 true false);
+              (ER, mkIn false 0 true false); (ER, mkIn false 0 true false); (ER, mkIn false 0 true false)] in
+  let tr1 := [(EW, mkIn true 5 false false); (EW, mkIn true 6 false false)] in
+  no_rst tr1 /\ no_rst tr2 /\ no_write tr2 /\ all_ren tr2 /\ held (snd (breach 1 3 tr1)) + 3 <= r_edges tr2
+  /\ rlog (snd (brun 1 3 tr2 (breach 1 3 tr1))) = [5; 6].
+Proof.
+  cbv zeta. unfold no_rst, no_write, all_ren.
+  repeat (split; [repeat (apply Forall_cons; [reflexivity|]); apply Forall_nil|]).
+  split; [vm_compute; congruence|reflexivity].
+Qed.
+
+(* ------------------------------------------------------------------ constructors and elaboration *)
+(* an elaborating non-empty AsyncFIFO has depth 2^n with n = depth_bits >= 1: the [n] of the theorems above *)
+Theorem C13_async_ctor_shape depth exact d' : 0 <= depth ->
+  async_ctor depth exact = Some d' -> d' <> 0 -> async_elab_ok d' = true ->
+  d' = 2 ^ aceil_log2 d' /\ 1 <= aceil_log2 d' /\ depth <= d' /\ (exact = true -> d' = depth).
+Proof.
+  intros H0 C N E. destruct (async_ctor_shape depth exact d' H0 C N) as (S1 & S2 & S3).
+  pose proof (proj1 (async_elab_iff d' ltac:(lia)) E). repeat split; try assumption; lia.
+Qed.
+Print Assumptions C13_async_ctor_shape.
+Example C13_async_ctor_ex : async_ctor 5 false = Some 8 /\ async_elab_ok 8 = true /\ aceil_log2 8 = 3
+                            /\ async_ctor 5 true = None /\ async_buf_ctor 4 false = Some 5.
+Proof. vm_compute. repeat split; reflexivity. Qed.
+
+(* "every constructible depth elaborates" holds except for the depths of finding F4 ... *)
+Theorem C13_async_depths_elaborate depth exact d' : 0 <= depth -> depth <> 1 ->
+  async_ctor depth exact = Some d' -> async_elab_ok d' = true.
+Proof. exact (async_depths_elaborate depth exact d'). Qed.
+Print Assumptions C13_async_depths_elaborate.
+
+Theorem C13_async_buf_depths_elaborate depth exact d' : 0 <= depth -> depth <> 1 -> depth <> 2 ->
+  async_buf_ctor depth exact = Some d' -> async_buf_elab_ok d' = true.
+Proof. exact (async_buf_depths_elaborate depth exact d'). Qed.
+Print Assumptions C13_async_buf_depths_elaborate.
+
+(* ... and is false of the code as written for exactly those (F4-asyncfifo-depth1-elaborate):
+   AsyncFIFO(depth=1) and AsyncFIFOBuffered(depth=1 or 2) construct, but produce_w_gry[-2] is out of range *)
+Theorem C13_async_depths_elaborate_refuted :
+  exists depth exact d', 0 <= depth /\ async_ctor depth exact = Some d' /\ async_elab_ok d' = false.
+Proof. exists 1, true, 1. vm_compute. repeat split; congruence. Qed.
+Print Assumptions C13_async_depths_elaborate_refuted.
+
+Theorem C13_async_buf_depths_elaborate_refuted :
+  (exists d', async_buf_ctor 1 false = Some d' /\ async_buf_elab_ok d' = false) /\
+  (exists exact d', async_buf_ctor 2 exact = Some d' /\ async_buf_elab_ok d' = false).
+Proof. split; [exists 2|exists true, 2]; vm_compute; split; reflexivity. Qed.
+Print Assumptions C13_async_buf_depths_elaborate_refuted.
